@@ -124,7 +124,15 @@ def rule_filters(rep, prog, rid='R16.filter'):
         ok = bool(base_ok and arg_ok)
     elif isinstance(br, Comp):
         # comprehension form: [b for b in network.branches if b.id != element]
-        ok = len(br.gens) == 1 and term_equal(br.gens[0][0], ev.getattr(A('network'), 'branches', f.mod, 0)) and len(br.gens[0][1]) == 1 and 'element' in repr(tkey(br.gens[0][1][0]))
+        env_, m_ = spec_env(prog, ev, {})
+        env_.update({'network': A('network'), 'element': A('element')})
+        forms = ["[b for b in network.branches if b.id != element]", "[b for b in network.branches if b.element.name != element]",
+                 "[b for b in network.branches if b != network[element]]", "[b for b in network.branches if b is not network[element]]",
+                 "[b for i, b in enumerate(network.branches) if i != network.branches.index(network[element])]",
+                 "[b for i, b in enumerate(network.branches) if i != [x.id for x in network.branches].index(element)]"]
+        res = [compare_comps(br, spec(ev, fs_, env_, m_)) for fs_ in forms]
+        ok = True if any(r is True for r in res) else None
+        if ok is None and not (len(br.gens) == 1 and len(br.gens[0][1]) == 1 and 'element' in repr(tkey(br.gens[0][1][0]))): ok = False
     rep.ob(rid, 'remove_element', ok, f'branches = {br!r:.200}', f.site)
     # switch_ground_node keeps the branch list
     f, ev, t = eval_tf(prog, 'switch_ground_node', [A('network'), A('new_ground')])
@@ -155,6 +163,7 @@ def rule_rename(rep, prog, rid='R16.rename'):
         lp = None; it = red['iter']; init = red['init']; carried = Poly.atom(('carried', 'acc')); step = True
     # the pair may be a plain tuple or a small record (NamedTuple / dataclass) of (absorbed, retained)
     def as_pair(x):
+        if isinstance(x, list) and len(x) == 2: return tuple(x)          # unpacked by `for an, rn in ...` either way
         if isinstance(x, Rec) and len(x.f) == 2:
             nt = ev.namedtuple_items(x)
             if nt is not None: return tuple(nt)
@@ -172,7 +181,9 @@ def rule_rename(rep, prog, rid='R16.rename'):
     # (absorbed, retained) pairs of the shorts that are not exempt, in listing order; the absorbed node is never the reference
     pair_src = ("[({p}) for vs in [b for b in network.branches if (b.element.V == 0 and b.element.Z == 0) and b.element not in keep]]")
     forms = ["(vs.node1, vs.node2) if not network.is_zero_node(vs.node1) else (vs.node2, vs.node1)",
-             "(vs.node2, vs.node1) if not network.is_zero_node(vs.node2) else (vs.node1, vs.node2)"]
+             "(vs.node2, vs.node1) if not network.is_zero_node(vs.node2) else (vs.node1, vs.node2)",
+             # (a short from the reference to the reference is a self-loop: both orders name the same pair)
+             "(vs.node2, vs.node1) if network.is_zero_node(vs.node1) and not network.is_zero_node(vs.node2) else (vs.node1, vs.node2)"]
     pairs_ok = None; why = f'pairs = {it!r:.200}'
     if isinstance(it, Comp):
         res = [compare_comps(it, spec(ev, pair_src.format(p=p_), env, m)) for p_ in forms]
@@ -189,7 +200,8 @@ def rule_rename(rep, prog, rid='R16.rename'):
         if pair_rec.clsref and isinstance(pair_rec.clsref, tuple): names = [f_[0] for f_ in prog.dataclass_fields(pair_rec.clsref[0], pair_rec.clsref[1])]
         target = Rec(pair_rec.cls, {names[0]: an_t, names[1]: rn_t}, pair_rec.clsref)
     if lp is not None:
-        if not isinstance(step, Comp):
+        # the step over the concrete pair may split on how the pair was chosen; it is re-evaluated over a symbolic pair below
+        if not (isinstance(step, Comp) or (isinstance(step, Cond) and all(isinstance(l, Comp) for _, l in paths_of(step)))):
             rep.ob(rid, 'contraction:step', None, f'step = {step!r:.200}', site); return
         step = ev.reeval_loop(lp, target).get(cname)
     else:
